@@ -9,6 +9,8 @@
              | X<x>                 DISPOSE @x
              | P expr               PRINT expr
              | I <nb> (expr <n> stmt*n)*nb <ne> stmt*ne      IF / ELSEIF … / ELSE (ne = 0: no ELSE)
+             | J expr <nb> (expr <n> stmt*n)*nb <ne> stmt*ne  CASE expr WHEN expr THEN … ELSE … END CASE
+             | M1 | M0              EXIT 1 (forced exit) | TRIGGER ERROR
              | W expr <n> stmt*n    WHILE expr DO … END WHILE
              | E<x> <0|1> <nv> lit*nv <n> stmt*n             WHILE [VAR, when 1] @x IN cursor over the rows lit…
              | T<x>                 DECLARE tx VIEW (c1)   (a table is the variable x holding its number of rows;
@@ -23,6 +25,8 @@
              | Y<f>                 DISPOSE FUNCTION f
     param   := p<x> | q<x> expr     (q: with DEFAULT expr)
     expr    := n | t | f | u | i<int> | v<x> | + e e | - e e | < e e | = e e | c<f> <na> expr*na
+             | a<f> <s0> <na> expr*na      (SELECT f(<list>, args…) FROM …): aggregate f over the rows s0, s0+1, …
+    stmt   += G<f> <c> <np> param*np <n> stmt*n            DECLARE f AGGREGATE (c, …) AS BEGIN … END
 
   answer:   <flow> | <printed values, oldest first> | <variables of every block left, innermost first, blocks
             separated by "/"> | <functions …, as name:number of parameters> | commit / nocommit (Processor.Execute
@@ -58,6 +62,13 @@ partial def pExpr : P Expr
     | _ =>
       if t.front == 'i' then (t.drop 1).toInt?.map fun i => (.lit (.int i), ts)
       else if t.front == 'v' then (tagNat 'v' t).map fun x => (.var x, ts)
+      else if t.front == 'a' then      -- a<f> <s0> <na> expr*na : aggregate f over the group that the pseudo-cursor state s0 stands for
+        match tagNat 'a' t, ts with
+        | some f, s0 :: n :: ts' =>
+          match s0.toInt?, natOf n with
+          | some s0, some n => (pExprs n ts').map fun (as, r) => (.acall f s0 as, r)
+          | _, _ => none
+        | _, _ => none
       else if t.front == 'c' then
         match tagNat 'c' t, ts with
         | some f, n :: ts' =>
@@ -113,6 +124,18 @@ partial def pStmt : P Stmt
     | "K" => some (.cont, ts)
     | "Q" => some (.exit, ts)
     | "Z" => (pBlock ts).map fun (b, r) => (.inline b, r)
+    | "M0" => some (.raise false, ts)
+    | "M1" => some (.raise true, ts)
+    | "J" =>
+      match pExpr ts with
+      | some (e, ts0) =>
+        match pCount ts0 with
+        | some (nb, ts1) =>
+          match pBranches nb ts1 with
+          | some (bs, ts2) => (pBlock ts2).map fun (els, r) => (.caseOf e bs els, r)
+          | none => none
+        | none => none
+      | none => none
     | "W" =>
       match pExpr ts with
       | some (c, ts1) => (pBlock ts1).map fun (b, r) => (.while c b, r)
@@ -154,6 +177,16 @@ partial def pStmt : P Stmt
         | _, _ => none
       else if t.front == 'X' then (tagNat 'X' t).map fun x => (.dispose x, ts)
       else if t.front == 'Y' then (tagNat 'Y' t).map fun x => (.disposeFn x, ts)
+      else if t.front == 'G' then      -- G<f> <c> <np> param*np <n> stmt*n : DECLARE f AGGREGATE (c, …)
+        match tagNat 'G' t, ts with
+        | some f, c :: ts0 =>
+          match natOf c, pCount ts0 with
+          | some c, some (np, ts1) =>
+            match pMany pParam np ts1 with
+            | some (ps, ts2) => (pBlock ts2).map fun (b, r) => (.declAgg f c ps b, r)
+            | none => none
+          | _, _ => none
+        | _, _ => none
       else if t.front == 'F' then
         match tagNat 'F' t, pCount ts with
         | some f, some (np, ts1) =>
@@ -207,6 +240,9 @@ def errCode : Err → String
   | .redeclaredTable => "11501"
   | .cursorClosed => "11003"
   | .cursorOpen => "11004"
+  | .pseudoCursor => "11006"
+  | .forcedExit => "90640"
+  | .userTriggered => "90650"
   | .fuel => "fuel"
 
 def showOutcome : Outcome → String
